@@ -47,16 +47,26 @@ theorem compile_ok_linearizeWith {m : Model α} {tol : α} {maxSteps : Nat} {lm 
   unfold Compile.linearize at h
   split at h
   · cases h
-  · exact ⟨_, h⟩
+  · split at h
+    · cases h
+    · exact ⟨_, h⟩
 
+/-- an error of the whole compiler comes from the up-front collapse check on the scratch context (rooc e35561f),
+from the flatten fuel of the model, or from the lowering on the analyzer's output. -/
 theorem compile_error_linearizeWith {m : Model α} {tol : α} {maxSteps : Nat} {err : LinErr}
     (h : Compile.linearize m tol maxSteps = .error err) :
+    collapseCheckAll m (Compile.scratchState m tol maxSteps) = .error err ∨
     err = .fuel ∨ ∃ an : Analyzer α,
       linearizeWith m (Compile.toLinBounds an.variableBounds) (an.applyToDomain m.domain) = .error err := by
   unfold Compile.linearize at h
   split at h
-  · injection h with h; exact Or.inl h.symm
-  · exact Or.inr ⟨_, h⟩
+  · rename_i e hchk
+    injection h with h
+    subst h
+    exact Or.inl hchk
+  · split at h
+    · injection h with h; exact Or.inr (Or.inl h.symm)
+    · exact Or.inr (Or.inr ⟨_, h⟩)
 
 /-- the source declares pairwise distinct names (its domain is an `IndexMap`). -/
 def SourceNodup (m : Model α) : Bool := DomainNodup m.domain
